@@ -432,7 +432,12 @@ class Eval:
             if rv["op"] == "PtrMetadata":
                 # the length of a slice reference (what `slice.len()` and slice patterns read)
                 return ("call", "core::slice::len", None, (self.operand(env, rv["a"], point),), None)
-            return ("un", rv["op"], self.operand(env, rv["a"], point))
+            a_ = self.operand(env, rv["a"], point)
+            if rv["op"] == "Not" and a_[0] == "const" and a_[1] == "bool":
+                return ("const", "bool", 0 if a_[2] else 1)
+            if rv["op"] == "Not" and a_[0] == "un" and a_[1] == "Not":
+                return a_[2]
+            return ("un", rv["op"], a_)
         if k == "cast":
             a = self.operand(env, rv["op"], point)
             kind = rv["kind"]
@@ -820,6 +825,9 @@ class Eval:
         term = body.blocks[s_]["term"]
         if term["k"] != "switch" or len(term["targets"]) != 1 or term["targets"][0][0] != 0:
             return None
+        chain_v = self._fold_bool_chain(env, s_, b, pred_vals)
+        if chain_v is not None:
+            return chain_v
         arms = {False: term["targets"][0][1], True: term["otherwise"]}
         vals = {}
         for truth, tg in arms.items():
@@ -841,6 +849,10 @@ class Eval:
             return None
         T, Fz = ("const", "bool", 1), ("const", "bool", 0)
         vt, vf = vals[True], vals[False]
+        if vt == T and vf == Fz:
+            return c                       # `if c { true } else { false }`, `matches!(x, P if c)` on the arm of P
+        if vt == Fz and vf == T:
+            return ("un", "Not", c)
         if vf == Fz:
             return ("bin", "LAnd", c, vt)
         if vt == T:
@@ -849,6 +861,58 @@ class Eval:
             return ("bin", "LAnd", ("un", "Not", c), vf)
         if vf == T:
             return ("bin", "LOr", ("un", "Not", c), vt)
+        return None
+
+    def _fold_bool_chain(self, env, s_, b, pred_vals):
+        """`a && b && c` / `a || b || c` as a value: all paths from the first test to the merge block but one deliver the
+        same constant; the remaining path's tests (all taken on their true resp. false edge) and its value make the chain"""
+        body = env.body
+        T, Fz = ("const", "bool", 1), ("const", "bool", 0)
+        paths = []
+
+        def walk(cur, lits, depth):
+            if len(paths) > 12 or depth > 12:
+                return False
+            t = body.blocks[cur]["term"]
+            if t["k"] == "switch":
+                if len(t["targets"]) != 1 or t["targets"][0][0] != 0:
+                    return False
+                for truth, tg in ((False, t["targets"][0][1]), (True, t["otherwise"])):
+                    if tg == b:
+                        paths.append((lits + [(cur, truth)], cur))
+                    elif not walk(tg, lits + [(cur, truth)], depth + 1):
+                        return False
+                return True
+            nx = body.succ(cur)
+            if len(nx) != 1:
+                return False
+            if nx[0] == b:
+                paths.append((lits, cur))
+                return True
+            return walk(nx[0], lits, depth + 1)
+        if not walk(s_, [], 0) or len(paths) < 3:
+            return None
+        vals = []
+        for lits, last_ in paths:
+            if last_ not in pred_vals:
+                return None
+            vals.append(pred_vals[last_])
+        for const_, op, want_truth in ((Fz, "LAnd", True), (T, "LOr", False)):
+            odd = [i for i, v in enumerate(vals) if v != const_]
+            if len(odd) != 1:
+                continue
+            lits, _ = paths[odd[0]]
+            if not lits or any(tr != want_truth for _, tr in lits):
+                continue
+            try:
+                conds = [self.operand(env, body.blocks[sb]["term"]["op"], (sb, None)) for sb, _ in lits]
+            except RecursionError:
+                return None
+            members = conds + ([vals[odd[0]]] if vals[odd[0]] != (T if op == "LAnd" else Fz) else [])
+            out = members[0]
+            for m_ in members[1:]:
+                out = ("bin", op, out, m_)
+            return out
         return None
 
     def _fold_enum_operator(self, env, b, pred_vals):
@@ -1208,6 +1272,10 @@ class Eval:
             if m and re.match(r"^&(?:mut )?\[[^;]*\]$", src):
                 ln = ("call", "core::slice::len", None, (args[0],), None)
                 return ("opt", args[0], frozenset([("pred", ("bin", "Eq", ln, ("const", "usize", int(m.group(1)))))]))
+        # ---- slice / Vec `get(i)`: the element, present exactly when i < len ----
+        if cid.rsplit("::", 1)[-1] == "get" and ("slice" in cid or cid.startswith("std::vec::Vec")) and len(args) == 2 and "HashMap" not in cid:
+            ln = ("call", "core::slice::len", None, (args[0],), None)
+            return ("opt", ("call", cid, head, tuple(args), site), frozenset([("pred", ("bin", "Lt", args[1], ln))]))
         # ---- bool::then_some / bool::then: a value that is present exactly when the condition holds ----
         if cid in ("core::bool::then_some", "std::bool::then_some", "bool::then_some") or (cid.endswith("bool::then_some") and len(args) == 2):
             if args[0] == ("const", "bool", 1):
